@@ -339,6 +339,11 @@ def evaluator_cases():
         for l1, l2 in itertools.product(range(3), repeat=2):
             out.append({"evaluator_case": True, "mode": "multi-class", "batches": [[[r1, r2], [l1, l2]]]})
             out.append({"evaluator_case": True, "mode": "categorical", "batches": [[[r1, r2], [np.eye(3)[l1].tolist(), np.eye(3)[l2].tolist()]]]})
+    # categorical mode with label vectors that are not exactly 0/1 (label smoothing, mixup): the class of a row is its arg-max
+    soft = [[0.05, 0.9, 0.05], [0.4, 0.35, 0.25], [0.1, 0.2, 0.7], [0.9, 0.05, 0.05]]
+    for r1, r2 in itertools.product(rows[:3], repeat=2):
+        for s1, s2 in itertools.product(soft, repeat=2):
+            out.append({"evaluator_case": True, "mode": "categorical", "batches": [[[r1, r2], [s1, s2]]]})
     return out
 
 def judge_zero_metric(case):
